@@ -436,7 +436,7 @@ fn clone_independence(st: &mut Stats, rng: &mut Rng) {
 pub fn run(ctx: &Ctx) -> Report {
     let nmat = 25u64; // matrix shapes 0..4 x 0..4
     let fixed = 5u64;
-    let nrand = ctx.vol(600, 40_000);
+    let nrand = ctx.vol(3000, 150_000);
     let stats = par_run(ctx, TAG, fixed + nmat + nrand, |u, rng, st| {
         match u {
             0 => table_vector(st, rng),
